@@ -951,3 +951,21 @@ def g_api_shapes(flags="nc"):
     for d in docs:
         out.append(Case(d, flags, True, meta={"gen": "api-shape"}))
     return out
+
+
+def g_many_small_expansions(flags="c"):
+    """more than 255 nested entity references in the whole document, but far fewer under any single top-level reference: the
+    budget is per top-level reference, so every one of them must expand"""
+    out = []
+    decls = [("a", "v"), ("e", "&a;" * 10)]
+    attrs = " ".join("k%d='&e;'" % i for i in range(40))
+    out.append(Case(ent_doc(decls, "<r %s/>" % attrs), flags, True,
+                    meta={"gen": "many-small-expansions-attr", "wellformed": "40 attributes with 10 nested references each", "expect": "ok", "expect_len": 400}))
+    out.append(Case(ent_doc(decls, "<r>" + "<i>&e;</i>" * 60 + "</r>"), flags, True,
+                    meta={"gen": "many-small-expansions-text", "wellformed": "60 elements with 10 nested references each", "expect": "ok", "expect_len": 600}))
+    out.append(Case(ent_doc(decls, "<r>" + "<i k='&e;'>&e;</i>" * 30 + "</r>"), flags, True,
+                    meta={"gen": "many-small-expansions-mixed", "wellformed": "30 elements, attribute and text with 10 nested references each", "expect": "ok", "expect_len": 600}))
+    decls2 = [("a", "v"), ("e", "&a;" * 255)]
+    out.append(Case(ent_doc(decls2, "<r k='&e;'>&e;<i k='&e;'/>&e;</r>"), flags, True,
+                    meta={"gen": "many-small-expansions-255", "wellformed": "four top-level references with 255 nested references each", "expect": "ok", "expect_len": 1020}))
+    return out
